@@ -247,7 +247,7 @@ theorem finalWords_mono : ∀ (fuel : Nat) (s : Seq) (r : List Text), finalWords
         | none => rw [hp] at h; simp at h
         | some st => rw [hp] at h; rw [ih p st hp]; exact h
 
-theorem finalWords_mono' (fuel k : Nat) (s : Seq) (r : List Text) (h : finalWords W conf fuel s = some r) :
+theorem finalWords_mono_add (fuel k : Nat) (s : Seq) (r : List Text) (h : finalWords W conf fuel s = some r) :
     finalWords W conf (fuel + k) s = some r := by
   induction k with
   | zero => exact h
@@ -256,8 +256,8 @@ theorem finalWords_mono' (fuel k : Nat) (s : Seq) (r : List Text) (h : finalWord
 /-- the result of a tag does not depend on the budget, once there is enough of it -/
 theorem finalWords_det (f1 f2 : Nat) (s : Seq) (a b : List Text) (h1 : finalWords W conf f1 s = some a)
     (h2 : finalWords W conf f2 s = some b) : a = b := by
-  have e1 := finalWords_mono' W conf f1 f2 s a h1
-  have e2 := finalWords_mono' W conf f2 f1 s b h2
+  have e1 := finalWords_mono_add W conf f1 f2 s a h1
+  have e2 := finalWords_mono_add W conf f2 f1 s b h2
   rw [Nat.add_comm] at e2
   rw [e1] at e2; cases e2; rfl
 
